@@ -21,9 +21,9 @@ IGNORED_CODES = {"P0030"}      # 'no content': carries no file, cannot be attrib
 def texts_for(u, v):
     return [
         "TYPE T_%s : (r_%s, g_%s); END_TYPE\nFUNCTION_BLOCK F_%s\nVAR x : INT; END_VAR\nx := 1;\nEND_FUNCTION_BLOCK\n" % (u, u, u, u),
-        "PROGRAM L_%s\nVAR x : INT; END_VAR\nx := ?;\nEND_PROGRAM\n" % u,
-        "PROGRAM S_%s\nVAR x : INT END_VAR\nEND_PROGRAM\n" % u,
-        "PROGRAM E_%s\nVAR x : INT; END_VAR\n  x := undeclared_%s;\nEND_PROGRAM\n" % (u, u),
+        "PROGRAM L_%s\nVAR x : INT; END_VAR\n(* Größe *) x := ?;\nEND_PROGRAM\n" % u,
+        "PROGRAM S_%s\nVAR s : STRING := 'café €'; x : INT END_VAR\nEND_PROGRAM\n" % u,
+        "PROGRAM E_%s\nVAR x : INT; END_VAR\n  (* é日本 *) x := undeclared_%s;\nEND_PROGRAM\n" % (u, u),
         "PROGRAM D_%s\nVAR c : T_%s := r_%s; i : F_%s; END_VAR\ni();\nEND_PROGRAM\n" % (u, v, v, v),
     ]
 
@@ -249,7 +249,8 @@ def run(tier, seed):
                     "all" if not payload["sample"] else "a seeded sample of %d" % payload["sample"], total, payload["max_len"]),
         "exhaustive": not payload["sample"],
         "assumptions": ["P0030 ('no content') has no file and is ignored on both sides",
-                        "document texts are ASCII so that columns in bytes, chars and UTF-16 units coincide"],
+                        "the faulty texts carry non-ASCII characters (BMP only) before the error on the same line: LSP characters "
+                        "and the CLI's columns must both count characters"],
         "min_evaluations": 500,
         "coverage": {"reference_states": res.counters.get("reference_states", 0)},
     }
